@@ -17,7 +17,7 @@ REV = subprocess.run(["git", "-C", REPO, "rev-parse", "HEAD"], stdout=subprocess
 OUT = os.path.join(VERIF, "mutation", "results.jsonl")
 # file -> monitors that are anchored in it (C16 native is slow: only for the threaded dot product's own file)
 MAP = [
-    ("src/matrix/solve.rs", ["C01", "C02", "C17"]),
+    ("src/matrix/solve.rs", ["C01", "C02", "C20", "C17"]),
     ("src/matrix/functions.rs", ["C03", "C18", "C17"]),
     ("src/matrix/", ["C03", "C20", "C01", "C02", "C18"]),
     ("src/banded.rs", ["C04", "C20"]),
@@ -26,14 +26,18 @@ MAP = [
     ("src/polynomial/mod.rs", ["C10", "C11", "C12"]),
     ("src/polynomial/", ["C11", "C12", "C10", "C20"]),
     ("src/complex/", ["C13", "C14", "C10", "C15"]),
-    ("src/vector/vec_f64.rs", ["C15", "C16", "C08", "C09", "C20"]),
-    ("src/vector/", ["C15", "C20", "C03", "C08"]),
+    ("src/vector/vec_f64.rs", ["C15", "C16", "C08", "C09", "C20", "C17"]),
+    ("src/vector/", ["C15", "C20", "C03", "C08", "C17"]),
     ("src/newton.rs", ["C17"]),
     ("src/mesh1d.rs", ["C19", "C20"]),
     ("src/mesh2d.rs", ["C19", "C20"]),
     ("src/traits.rs", ["C13", "C15", "C11"]),
 ]
 SKIP_FILES = ("src/verif.rs", "src/lib.rs", "src/constants.rs")
+# formatting / plain-text dump routines that none of the 20 properties speaks about (Mesh1D::output/read ARE in C19)
+OUT_OF_SCOPE_FNS = {("src/matrix/mod.rs", "fmt"), ("src/matrix/mod.rs", "output"), ("src/vector/mod.rs", "fmt"), ("src/vector/mod.rs", "output"),
+                    ("src/mesh2d.rs", "output"), ("src/mesh2d.rs", "output_var"), ("src/polynomial/mod.rs", "fmt"),
+                    ("src/polynomial/mod.rs", "format_leading_coeff"), ("src/complex/mod.rs", "fmt")}
 SKIP_LINE = re.compile(r"^\s*(//|#\[|use |pub use |mod |pub mod )|println!|print!|write!|writeln!|panic!|verif::|cfg\(feature")
 
 OPS = [
@@ -85,8 +89,21 @@ def candidates(files_filter):
         if files_filter and not any(s in f for s in files_filter):
             continue
         src = sh(["git", "-C", REPO, "show", f"{REV}:{f}"])[1].split("\n")
-        in_verif = 0
+        in_comment, fn_name = False, ""
         for ln, line in enumerate(src):
+            # block comments (the sources keep whole retired functions in /* ... */) and functions outside every property
+            if in_comment:
+                if "*/" in line:
+                    in_comment = False
+                continue
+            if "/*" in line and "*/" not in line.split("/*", 1)[1]:
+                in_comment = True
+                line = line.split("/*", 1)[0]
+            mfn = re.search(r"\bfn\s+(\w+)", line)
+            if mfn:
+                fn_name = mfn.group(1)
+            if (f, fn_name) in OUT_OF_SCOPE_FNS:
+                continue
             if SKIP_LINE.search(line):
                 continue
             code = line.split("//")[0]
@@ -214,6 +231,10 @@ def summary():
     for r in recs:
         last[(r["file"], r["line"], r["kind"], r["col"], r["new"])] = r
     recs = list(last.values())
+    valid = {(c["file"], c["line"]) for c in candidates([])}
+    for r in recs:
+        if (r["file"], r["line"]) not in valid and r["verdict"] in ("SURVIVED", "caught", "killed-by-suite"):
+            r["verdict"] = "not-counted(comment-or-formatting-code)"
     by = {}
     for r in recs:
         by.setdefault(r["verdict"], []).append(r)
